@@ -370,6 +370,133 @@ func transcript(th bool) []string {
 			emit(fmt.Sprintf("h2c #%d", i), enc(p1), enc(p2), []byte(fmt.Sprint(e1, e2)))
 		})
 	}
+	// call shapes: "every public operation on every input" includes HOW an operation is called - the receiver among
+	// the operands, the same object in several slots, zero scalars and identity points at every list position. All lists
+	// of length 0..3 over 5 scalars x 4 points, both multi-scalar variants, receiver fresh / each list entry; the
+	// double-scalar and single multiplications with the receiver as the point operand; the group operations under all
+	// five alias patterns.
+	{
+		sv := []*big.Int{big.NewInt(0), one, big.NewInt(2), new(big.Int).Sub(ref.N, one), big.NewInt(0x1234567)}
+		g := ref.G()
+		type pv struct {
+			p ref.Pt
+			z int64
+		}
+		pvs := []pv{{ref.Infinity(), 1}, {g, 1}, {g.Neg(), 1}, {g.Mul(big.NewInt(7)), 3}}
+		type ent struct{ s, p int }
+		var ents []ent
+		for si := range sv {
+			for pi := range pvs {
+				ents = append(ents, ent{si, pi})
+			}
+		}
+		var lists [][]ent
+		lists = append(lists, nil)
+		for a := range ents {
+			lists = append(lists, []ent{ents[a]})
+			for b := range ents {
+				lists = append(lists, []ent{ents[a], ents[b]})
+				for c := range ents {
+					if !th && (a*7+b*3+c)%5 != 0 {
+						continue
+					}
+					lists = append(lists, []ent{ents[a], ents[b], ents[c]})
+				}
+			}
+		}
+		for li, l := range lists {
+			for variant := 0; variant < 2; variant++ {
+				for recv := -1; recv < len(l); recv++ {
+					key := fmt.Sprintf("msm-shape %v variant%d recv%d", l, variant, recv)
+					guard(key, func() {
+						var ss []*secp256k1.Scalar
+						var ps []*secp256k1.Point
+						for _, e := range l {
+							ss = append(ss, lib.MkSC(sv[e.s]))
+							ps = append(ps, lib.MkPTRep(pvs[e.p].p, big.NewInt(pvs[e.p].z)))
+						}
+						if len(l) == 3 && li%2 == 0 { // the same objects in two slots
+							ss[2], ps[2] = ss[0], ps[0]
+						}
+						v := new(secp256k1.Point)
+						if recv >= 0 {
+							v = ps[recv]
+						}
+						if variant == 0 {
+							v.MultiScalarMult(ss, ps)
+						} else {
+							v.MultiScalarMultVartime(ss, ps)
+						}
+						emit(key, enc(v))
+					})
+				}
+			}
+		}
+		for a := range sv {
+			for b := range sv {
+				for pi := range pvs {
+					for _, al := range []bool{false, true} {
+						key := fmt.Sprintf("dsmb-shape u1#%d u2#%d pt#%d aliased=%v", a, b, pi, al)
+						guard(key, func() {
+							pt := lib.MkPTRep(pvs[pi].p, big.NewInt(pvs[pi].z))
+							v := new(secp256k1.Point)
+							if al {
+								v = pt
+							}
+							v.DoubleScalarMultBasepointVartime(lib.MkSC(sv[a]), lib.MkSC(sv[b]), pt)
+							pt2 := lib.MkPTRep(pvs[pi].p, big.NewInt(pvs[pi].z))
+							w := new(secp256k1.Point)
+							if al {
+								w = pt2
+							}
+							w.ScalarMult(lib.MkSC(sv[b]), pt2)
+							emit(key, enc(v), enc(w))
+						})
+					}
+				}
+			}
+		}
+		for pi := range pvs {
+			for qi := range pvs {
+				for al := 0; al < 5; al++ {
+					if al >= 3 && pi != qi {
+						continue
+					}
+					key := fmt.Sprintf("group-shape pt#%d pt#%d alias%d", pi, qi, al)
+					guard(key, func() {
+						var parts [][]byte
+						for op := 0; op < 4; op++ {
+							p := lib.MkPTRep(pvs[pi].p, big.NewInt(pvs[pi].z))
+							q := p
+							if al < 3 {
+								q = lib.MkPTRep(pvs[qi].p, big.NewInt(pvs[qi].z))
+							}
+							v := new(secp256k1.Point)
+							switch al {
+							case 1, 4:
+								v = p
+							case 2:
+								v = q
+							}
+							switch op {
+							case 0:
+								v.Add(p, q)
+							case 1:
+								v.Subtract(p, q)
+							case 2:
+								v.Double(q)
+							case 3:
+								v.ConditionalSelect(p, q, uint64(pi&1))
+								v.ConditionalNegate(v, uint64(qi&1))
+							}
+							parts = append(parts, enc(v))
+						}
+						emit(key, parts...)
+					})
+				}
+			}
+		}
+	}
 	// SEC 1 decoding corpus
 	for pi, p := range mc.PointAlphabet(3, 1, 2) {
 		for _, b := range [][]byte{p.P.Compressed(), p.P.Uncompressed()} {
